@@ -194,10 +194,10 @@ def words_for(nf):
 def scalar_words(nf, tier, kind):
     if nf <= 2:
         return words_for(nf)
-    if tier == "quick":
+    if tier == "quick" or nf > 6:
         ws = sparse_words(nf, nan_placements=False)
         return ws if kind == "1d" else [w for w in ws if -1.0 not in w]
-    return sparse_words(nf, nan_placements=(nf <= 6))
+    return sparse_words(nf, nan_placements=(kind == "1d"))
 
 
 def to_array(words):
